@@ -2,13 +2,33 @@
 //! bypass the generators (so they stay valid when a decoder changes).
 
 use crate::timers::{run_script, SOp, STEP};
+use crate::vm::{Ctx, Op, Prog};
 use crate::CaseReport;
+
+fn prog(bodies: Vec<(Ctx, Vec<Op>)>) -> Prog {
+    // body 0 is the empty body, body 1 the top level
+    let mut p = Prog::default();
+    p.bodies.push(Vec::new());
+    p.ctxs.push(Ctx::Item);
+    for (c, b) in bodies {
+        p.ctxs.push(c);
+        p.bodies.push(b);
+    }
+    p
+}
 
 const SEC: i64 = 1_000_000_000;
 const MS: i64 = 1_000_000;
 
 pub fn names() -> &'static [&'static str] {
-    &["F1-min-upd-past-minimal", "F1-min-upd-past", "F1-min-upd-past-late"]
+    &[
+        "F1-min-upd-past-minimal",
+        "F1-min-upd-past",
+        "F1-min-upd-past-late",
+        "F2a-abrupt-drop-prep-held",
+        "F2b-abrupt-drop-slab-cycle",
+        "F2b-control-orderly",
+    ]
 }
 
 pub fn run(name: &str, trace: bool) -> Option<CaseReport> {
@@ -38,6 +58,61 @@ pub fn run(name: &str, trace: bool) -> Option<CaseReport> {
                 SOp::RunNext,
             ],
             trace,
+        ),
+        // F2a: an actor still in Prep that holds a queued call when the Stakker is dropped.
+        // actor_new!; a Ret::new; call!([a], m(..)) carrying the Ret; run; drop(stakker); drop owner
+        "F2a-abrupt-drop-prep-held" => crate::vm::exec::run_prog(
+            prog(vec![
+                (
+                    Ctx::Top,
+                    vec![
+                        Op::NewActor { style: 1, shape: 0, body: 0, dest: 0 },
+                        Op::MakeRet { kind: 0, a: 0, shape: 0, body: 0 },
+                        Op::Call { a: 0, via: 0, shape: 16, body: 0, nbag: 1 },
+                        Op::Run { dt: 1, idle: false, back: false },
+                        Op::DropStakker,
+                    ],
+                ),
+            ]),
+            trace,
+            true,
+        ),
+        // F2b: a live parent with a child created by ActorOwnSlab::add when the Stakker is dropped
+        "F2b-abrupt-drop-slab-cycle" => crate::vm::exec::run_prog(
+            prog(vec![
+                (
+                    Ctx::Top,
+                    vec![
+                        Op::NewActor { style: 0, shape: 0, body: 2, dest: 0 },
+                        Op::Run { dt: 1, idle: false, back: false },
+                        Op::Call { a: 0, via: 0, shape: 16, body: 3, nbag: 0 },
+                        Op::Run { dt: 1, idle: false, back: false },
+                        Op::DropStakker,
+                    ],
+                ),
+                (Ctx::Prep, vec![Op::ReturnSome]),
+                (Ctx::Ready, vec![Op::NewActor { style: 2, shape: 0, body: 2, dest: 0 }]),
+            ]),
+            trace,
+            true,
+        ),
+        // the same program with an orderly shutdown is clean
+        "F2b-control-orderly" => crate::vm::exec::run_prog(
+            prog(vec![
+                (
+                    Ctx::Top,
+                    vec![
+                        Op::NewActor { style: 0, shape: 0, body: 2, dest: 0 },
+                        Op::Run { dt: 1, idle: false, back: false },
+                        Op::Call { a: 0, via: 0, shape: 16, body: 3, nbag: 0 },
+                        Op::Run { dt: 1, idle: false, back: false },
+                    ],
+                ),
+                (Ctx::Prep, vec![Op::ReturnSome]),
+                (Ctx::Ready, vec![Op::NewActor { style: 2, shape: 0, body: 2, dest: 0 }]),
+            ]),
+            trace,
+            true,
         ),
         _ => return None,
     })
